@@ -32,6 +32,12 @@ _MUT_AUDIT = {
 _WFLAGS = os.O_WRONLY | os.O_RDWR | os.O_CREAT | os.O_TRUNC | os.O_APPEND
 
 
+def _is_ref_path(p):
+    if not isinstance(p, str):
+        return False
+    return "/refs/" in p or os.path.basename(p) in ("HEAD", "packed-refs", "ORIG_HEAD")
+
+
 class SimCrash(BaseException):
     """The simulated server process dies here."""
 
@@ -190,6 +196,10 @@ class SimFS:
         self.err_fired = []
         self.read_err_at = {}  # event index -> errno (read side)
         self.read_err_kinds = ("open-r", "listdir", "scandir")
+        # dulwich reads any OSError on a ref file as "this ref does not exist" (refs.read_loose_ref), which
+        # makes a bare collection look empty for that request: a recorded finding (C07).  Read errors
+        # land on ref files only where that finding is recognised structurally.
+        self.read_err_refs = False
         self.hook = None  # hook(kind, paths, mut): scheduler yield point
         self.observers = []  # fn(kind, paths, mut)
         self.log = None  # list of (kind, paths) for mutations when recording
@@ -211,7 +221,7 @@ class SimFS:
             self.hook(kind, paths, mut)
         for ob in self.observers:
             ob(kind, paths, mut)
-        if self.read_err_at and self.ev_seq in self.read_err_at and (mut or kind not in self.read_err_kinds):
+        if self.read_err_at and self.ev_seq in self.read_err_at and (mut or kind not in self.read_err_kinds or (not self.read_err_refs and paths and _is_ref_path(paths[0]))):
             # stat() does not fail with EMFILE, and hardly ever with EIO: a read-side error waits for
             # the next open / listing (and is not spent on a mutation either)
             self.read_err_at[self.ev_seq + 1] = self.read_err_at.pop(self.ev_seq)
